@@ -112,6 +112,30 @@ Theorem C10_independent_reader_discovery : forall cd fl principal home req cs,
 Proof. exact reader_find. Qed.
 Print Assumptions C10_independent_reader_discovery.
 
+(** ** The clients read conformant documents of an independent writer, in every layout
+    [rfc_write] (ObjRfc.v) writes a multi-status document from its content [d] with the
+    layout freedoms of the quantifier: the properties of a resource split over any number
+    of propstat elements in any order, unknown extra properties, comments / white space /
+    extension elements between the known elements, status before prop, any reason phrase,
+    any href spelling.  [wdoc_ok d]: status codes have three digits, properties are
+    elements, and no extension element shares its LOCAL name with an element of the
+    multi-status schema (the listed finding).  [ms_opt d]: the content of [d] as a
+    [multistatus] value, [None] if an href does not parse. *)
+Theorem C10_client_decodes_writer : forall cd d,
+  wdoc_ok d = true -> dec_multistatus cd (rfc_write d) = ms_opt cd d.
+Proof. exact dec_multistatus_wdoc. Qed.
+Print Assumptions C10_client_decodes_writer.
+
+(** [same_content_b cd known d1 d2]: same resources in the same order (hrefs denoting the
+    same paths), same response status codes, same sync token, and for every property name
+    the call reads ([known_for]) the same sequence of (value, status code) answers. *)
+Theorem C10_client_reads_variants_except_foreign_namesake : forall cd fl c reqpath d1 d2,
+  foreign_namesake d1 d2 = false ->
+  same_content_b cd (known_for fl c) d1 d2 = true ->
+  run_call cd fl c reqpath (rfc_write d1) = run_call cd fl c reqpath (rfc_write d2).
+Proof. exact client_reads_variants_kf. Qed.
+Print Assumptions C10_client_reads_variants_except_foreign_namesake.
+
 (** ** Known finding C10-foreign-namesake (known_findings.json) is real: two conformant
     layouts of one content (the second holds an extension element {urn:x}href, which RFC
     4918 section 17 tells a reader to ignore) are read differently by SyncCollection. *)
